@@ -232,6 +232,29 @@ def gen(tier: str, seed: int) -> list[Case]:
             files[f"src/pk/mod{mi}.py"] = text
             gts[f"pk.mod{mi}"] = gt
         cases.append(Case(cid=f"c20-{i}", files=files, opts=(["-nc"] if i % 2 else []) + noise_opts(seed, PID, i), meta={"gt": gts}, reach=REACH))
+    # markers for missing type information under the structured docstring styles: documented declarations next to
+    # undocumented, un-annotated ones with the same parameter names - in a module the docstring library loads and in one
+    # it cannot load (UTF-8 byte order mark); type information of one declaration must not silence the marker of another
+    docs = {
+        "numpydoc": 'Donor.\n\n    Parameters\n    ----------\n    value : int\n        V.\n    factor : float\n        F.\n\n    Returns\n    -------\n    converted : float\n        R.\n    ',
+        "google": 'Donor.\n\n    Args:\n        value (int): V.\n        factor (float): F.\n\n    Returns:\n        float: R.\n    ',
+        "rest": 'Donor.\n\n    :param value: V.\n    :type value: int\n    :param factor: F.\n    :type factor: float\n    :returns: R.\n    :rtype: float\n    ',
+    }
+    bare = "def rescale(value, factor):\n    ...\n\n\ndef shift(value, factor=2):\n    ...\n\n\nclass Legacy:\n    def scale(self, value, factor):\n        ...\n"
+    bare_gt = {"rescale": {"param-untyped", "result-missing"}, "shift": {"param-untyped", "result-missing"}, "Legacy": set(), "Legacy/scale": {"param-untyped", "result-missing"}}
+    for style, doc in docs.items():
+        donor = f'def donor(value, factor):\n    """{doc}"""\n    ...\n'
+        files = {
+            "src/pk/__init__.py": "",
+            "src/pk/a_documented.py": bare + "\n\n" + donor,  # the documented function is the last thing looked up here
+            "src/pk/b_legacy_root.py": {"hex": (b"\xef\xbb\xbf" + bare.encode()).hex()},
+            "src/pk/legacy/__init__.py": "",
+            "src/pk/legacy/b_legacy.py": {"hex": (b"\xef\xbb\xbf" + bare.encode()).hex()},
+            "src/pk/z_last.py": bare,
+        }
+        gts = {"pk.a_documented": dict(bare_gt), "pk.b_legacy_root": dict(bare_gt), "pk.legacy.b_legacy": dict(bare_gt), "pk.z_last": dict(bare_gt)}
+        for nc in (False, True):
+            cases.append(Case(cid=f"c20-doc-{style}-{int(nc)}", files=files, opts=["--docstyle", style] + (["-nc"] if nc else []), meta={"gt": gts}, reach=REACH))
     return cases
 
 
